@@ -26,6 +26,14 @@ CLAIMED = {
             "the contact value, nor value-level idempotence (e.g. URN 'set' with an equal list).",
             "who-may-call + path-sensitive typestate dataflow over go/ssa (ESP-style), value-provenance comparison",
             "DESIGN.md §4 C03"),
+    "C20": ("Structural necessary conditions of 'inspection over-approximates execution': Run.SaveResult has exactly two callers "
+            "(the action and router choke points); every action type whose methods reach a save implements ResultContainer, "
+            "declares the same name field and every constant category that can reach the save (through forwarding wrappers "
+            "and constant maps); routers declare resultName with all category names; every asset-reference field of an action "
+            "struct is visible to the reflection walker; waiting exits and node enumerators are unfiltered; every action field "
+            "that reaches Run.EvaluateTemplate* is tagged engine:evaluated. Does not relate inspection to actual executions.",
+            "table agreement between sibling implementations (saves vs declares) via SSA provenance, struct-tag audit, control-dependence check",
+            "DESIGN.md §4 C20"),
 }
 
 NOT_APPLICABLE = {}
